@@ -6,6 +6,6 @@ if ! git -C /repo diff --quiet; then echo "/repo has local modifications; refusi
 git -C /repo apply "$PATCH" || { echo "patch does not apply" >&2; exit 2; }
 # the evidence file of a run against a modified tree must not replace the committed one
 cp /verif/evidence/$PROP.json /dev/shm/evidence-$PROP.keep 2>/dev/null
-trap 'git -C /repo checkout -- . ; git -C /repo clean -fdq src; [ -f /dev/shm/evidence-$PROP.keep ] && mv /dev/shm/evidence-$PROP.keep /verif/evidence/$PROP.json' EXIT
+trap 'git -C /repo checkout -- . ; git -C /repo clean -fdq src; [ -f /dev/shm/evidence-$PROP.keep ] && mv /dev/shm/evidence-$PROP.keep /verif/evidence/$PROP.json; /verif/check --build >/dev/null 2>&1' EXIT
 /verif/check "$PROP" "$TIER"
 echo "exit=$?"
